@@ -41,6 +41,27 @@ fn out_event(fmt: &str, prefix: &str, text: &str, preset: bool, origin: &str) ->
            "check": check_accepts(fmt, version), "preset": preset, "rerender": rerender(fmt, version)})
 }
 
+/// decimal numbers within ten minutes of the wall clock are the documented re-stamp of a dirty state
+fn mask_now(text: &str) -> String {
+    let now = std::time::SystemTime::now().duration_since(std::time::UNIX_EPOCH).unwrap().as_secs();
+    let mut out = String::new();
+    let mut digits = String::new();
+    let flush = |digits: &mut String, out: &mut String| {
+        if !digits.is_empty() {
+            match digits.parse::<u64>() {
+                Ok(n) if n.saturating_add(600) >= now && n <= now + 60 => out.push_str("<NOW>"),
+                _ => out.push_str(digits),
+            }
+            digits.clear();
+        }
+    };
+    for c in text.chars() {
+        if c.is_ascii_digit() { digits.push(c) } else { flush(&mut digits, &mut out); out.push(c) }
+    }
+    flush(&mut digits, &mut out);
+    out
+}
+
 pub fn replay(args: &[String]) {
     let seed: u64 = args.get(2).and_then(|s| s.parse().ok()).unwrap_or(1);
     let mut rng = StdRng::seed_from_u64(seed);
@@ -84,6 +105,19 @@ pub fn replay(args: &[String]) {
                     }
                     if !clock && p != d {
                         rep.mismatch("C12:piped-differs-from-direct", json!({"argv": argv_z, "format": fmt, "direct": d, "piped": p, "ron": ron}));
+                    }
+                    // with the wall clock in play (a dirty state is re-stamped on both sides) the two renderings
+                    // still agree once numbers that are the wall clock of just now are masked; a difference is
+                    // confirmed by a second producer / consumer pair before it is reported (midnight, second ticks)
+                    if clock && mask_now(p) != mask_now(d) {
+                        let d2 = run_cli(&with_format(&argv_z, fmt, None), None);
+                        let ron2 = run_cli(&argv_z, None);
+                        let p2 = match &ron2 { Outcome::Ok(r) => run_cli(&argv(&["version", "--source", "stdin", "--output-format", fmt]), Some(r)), _ => Outcome::Err(String::new()) };
+                        if let (Outcome::Ok(d2), Outcome::Ok(p2)) = (&d2, &p2) {
+                            if mask_now(p2) != mask_now(d2) {
+                                rep.mismatch("C12:piped-differs-from-direct", json!({"argv": argv_z, "format": fmt, "direct": d2, "piped": p2, "wall_clock": true}));
+                            }
+                        }
                     }
                     if rep.evaluations % 40 < 2 {
                         writeln!(out, "{}", out_event(fmt, "", d, preset, "direct")).unwrap();
